@@ -1,7 +1,9 @@
 """C01 - the feature table stays aligned with the observations under any operation history.
 Oracle: dict model name -> list, coordinates/timestamps snapshot; expression and operator results from
 vt.exprs.evaluate.  A case is a JSON list of operations interpreted against the model inside the body (plus a pool of
-expression templates with external variables that the operations evaluate repeatedly; the history may use two tracks)."""
+expression templates with external variables that the operations evaluate repeatedly; the history may use two tracks,
+the coordinate class of the positions is a case field, and operations that copy observations / derive tracks are part
+of the history)."""
 import itertools
 
 from hypothesis import strategies as st
@@ -11,10 +13,24 @@ from tracklib.util.exceptions import AnalyticalFeatureError
 
 from vt import exprs, gen
 from vt.core import SubCheck, Violation, close, same
-from vt.props.c02 import BINARY_VOID, NON_VOID, SCALAR_VOID, SHIFT_SCALAR, SHIFT_UNARY, UNARY_VOID, self_contained, shift_ref
+from vt.props.c02 import (BINARY_VOID, COORDS, GETTERS, NON_VOID, SCALAR_VOID, SHIFT_SCALAR, SHIFT_UNARY, UNARY_VOID, coord_valid,
+                          coord_views, make_track, self_contained, shift_ref)
 
 ASSUMPTIONS = [
-    "feature names from {a, b, c, k1}; values from {-2..3} and occasional NaN; tracks of 1..5 observations with distinct x, y, z, t",
+    "feature names from {a, b, c, k1}; values from {-2..3} and occasional NaN; tracks of 1..5 observations with distinct x, y, z, t "
+    "(a track may grow to 8 observations through added copies; list initialisers drawn for the initial size are fitted cyclically to the "
+    "current size)",
+    "coordinate class of the track is a case field: ENUCoords, GeoCoords or ECEFCoords; x, y, z are the three stored components of the class "
+    "(no geodesy involved), read back through Track.getX/getY/getZ, Obs.position.getX/getY/getZ and the virtual features 'x' 'y' 'z'; a "
+    "coordinate assignment / item write is issued on a GeoCoords track only when every value is finite with |lon| <= 180, |lat| <= 90",
+    "provenance of the observations is part of the history: Track.loop(add=True) (appends a copy of the first observation), addObs / "
+    "insertObs(obs, i) of Obs.copy() of an observation of the same track (or of the other track when both list the same <= 1 feature names, so "
+    "that the column layout is the same by contract), and tracks derived from the current one with extractSpanTime(t_i, t_j) (bounds in "
+    "either order) or Track.copy(), on which the history may continue while the source stays alive.  Read off the unchanged tree: Obs.copy "
+    "and Track.copy are deep copies and extractSpanTime fills a new track with Obs.copy() of the observations in the span plus a copy of the "
+    "name->column table, so a copied observation starts with the values of its source at that moment and shares nothing with it afterwards; "
+    "source and derived track are both judged against their own model after every step.  Track.extract(i, j) and slices hand over the SAME "
+    "observation objects (sharing is their behaviour) and are not part of the domain",
     "create on an existing name is the documented no-op; operations whose arithmetic is undefined (vt.exprs.Undef) are not issued",
     "calls on a missing name are issued only for update / remove / item access, where AnalyticalFeatureError is the documented outcome",
     "expressions with external scalar variables (documented form operate('A=A/factor', {'factor': var})): a case carries a pool of <= 2 "
@@ -36,27 +52,60 @@ FUNCS = {"f_lin": lambda tr, i: 10.0 * i + 1.0, "f_x": lambda tr, i: tr.getObs(i
          "f_const": lambda tr, i: 0.5}
 
 
+MAXN = 8          # observations a track may grow to through loop(add=True) / added copies of observations
+
+
 class Model:
-    def __init__(self, n):
-        self.n = n
-        self.feat = {}
+    """what the history has written: coordinates, timestamps and features per observation (lists of equal length)"""
+
+    def __init__(self, n, coords="ENU"):
+        self.coords = coords
+        self.feat = {}              # name -> values; insertion order = order of creation
         self.x = [float(i) for i in range(n)]
         self.y = [10.0 + 2 * i for i in range(n)]
         self.z = [100.0 + 0.5 * i for i in range(n)]
         self.t = [T0 + 1000 * i for i in range(n)]
+        self.copies = False         # the track holds observations that came through Obs.copy()
+
+    @property
+    def n(self):
+        return len(self.t)
 
     def env(self):
         e = {"x": self.x, "y": self.y, "z": self.z, "t": [v / 1000.0 for v in self.t], "idx": [float(i) for i in range(self.n)]}
         e.update(self.feat)
         return e
 
+    def arg(self, v):
+        """the initialiser handed to tracklib: a list drawn for the initial size is fitted (cyclically) to the current size"""
+        return [v[i % len(v)] for i in range(self.n)] if isinstance(v, list) else v
+
     def vals(self, v):
-        return [float(u) for u in v] if isinstance(v, list) else [float(v)] * self.n
+        return [float(u) for u in self.arg(v)] if isinstance(v, list) else [float(v)] * self.n
+
+    def record(self, i):
+        return (self.x[i], self.y[i], self.z[i], self.t[i], {k: v[i] for k, v in self.feat.items()})
+
+    def insert(self, j, rec):
+        self.x.insert(j, rec[0])
+        self.y.insert(j, rec[1])
+        self.z.insert(j, rec[2])
+        self.t.insert(j, rec[3])
+        for k in self.feat:
+            self.feat[k].insert(j, rec[4][k])
+
+    def subset(self, idx, copies=True):
+        """independent model of the observations idx (same coordinate class, same features in the same order)"""
+        m = Model(0, self.coords)
+        m.x, m.y, m.z, m.t = ([v[i] for i in idx] for v in (self.x, self.y, self.z, self.t))
+        m.feat = {k: [v[i] for i in idx] for k, v in self.feat.items()}
+        m.copies = copies
+        return m
 
 
-def build(n):
-    m = Model(n)
-    tr = gen.make_track(list(zip(m.x, m.y, m.z)), m.t)
+def build(n, coords="ENU"):
+    m = Model(n, coords)
+    tr = make_track(list(zip(m.x, m.y, m.z)), m.t, coords)
     return m, tr
 
 
@@ -83,6 +132,8 @@ def invariant(m, tr, step, exact=True):
         extra = sorted(set(listed) - set(m.feat))
         raise Violation("feature-removed" if missing else "feature-added",
                         "after %s: listed %s, written %s" % (step, listed, sorted(m.feat)))
+    if tr.size() != m.n:
+        raise Violation("size-changed", "after %s: the track has %d observations, expected %d" % (step, tr.size(), m.n))
     for i in range(tr.size()):
         k = len(tr.getObs(i).features)
         if k != len(listed):
@@ -95,9 +146,9 @@ def invariant(m, tr, step, exact=True):
             if not vec_ok([tr[name, i]], [m.feat[name][i]], exact) or not vec_ok([tr[i, name]], [m.feat[name][i]], exact):
                 raise Violation("read-differs-from-last-write", "after %s: %s[%d] reads %s, last written %s" % (step, name, i, tr[name, i], m.feat[name][i]))
     for c, want in (("x", m.x), ("y", m.y), ("z", m.z)):
-        got = tr.getAnalyticalFeature(c)
-        if not vec_ok(got, want, exact):
-            raise Violation("coordinate-changed", "after %s: %s reads %s, expected %s" % (step, c, got, want))
+        for label, got in coord_views(tr, c):          # track.getX(), position.getX(), feature 'x'
+            if not vec_ok(got, want, exact):
+                raise Violation("coordinate-changed", "after %s on %s positions: %s reads %s, expected %s" % (step, m.coords, label, got, want))
     ts = [gen.ms_of_obstime(tr.getObs(i).timestamp) for i in range(tr.size())]
     if ts != m.t:
         raise Violation("timestamp-changed", "after %s: timestamps changed" % (step,))
@@ -157,7 +208,7 @@ def apply(m, tr, op, flags, ctx=None):
     ctx = ctx if ctx is not None else {"pool": [], "seen": {}, "track": 0}
     if kind == "create":
         name, val = op[1], op[2]
-        tr.createAnalyticalFeature(name, list(val) if isinstance(val, list) else val)
+        tr.createAnalyticalFeature(name, m.arg(val))
         if name not in m.feat:
             m.feat[name] = m.vals(val)
         else:
@@ -165,7 +216,7 @@ def apply(m, tr, op, flags, ctx=None):
     elif kind == "update":
         name, val = op[1], op[2]
         if name in m.feat:
-            tr.updateAnalyticalFeature(name, list(val) if isinstance(val, list) else val)
+            tr.updateAnalyticalFeature(name, m.arg(val))
             m.feat[name] = m.vals(val)
         else:
             _must_raise(lambda: tr.updateAnalyticalFeature(name, val), op)
@@ -184,7 +235,7 @@ def apply(m, tr, op, flags, ctx=None):
             flags.add("missing-name")
     elif kind == "set":          # bracket assignment of a whole feature
         name, val = op[1], op[2]
-        tr[name] = list(val) if isinstance(val, list) else val
+        tr[name] = m.arg(val)
         m.feat[name] = m.vals(val)
     elif kind == "del":          # bracket deletion
         name = op[1]
@@ -202,7 +253,12 @@ def apply(m, tr, op, flags, ctx=None):
             flags.add("missing-name")
     elif kind == "seti":
         name, i, v, swap = op[1], op[2] % m.n, float(op[3]), op[4]
+        if name in ("x", "y", "z") and not coord_valid(m.coords, name, [v]):
+            return None
         if name in m.feat or name in ("x", "y", "z"):
+            if name not in m.feat:
+                flags.add("coord-write")
+                flags.add("coord-write-" + m.coords)
             if swap:
                 tr[i, name] = v
             else:
@@ -268,6 +324,8 @@ def apply(m, tr, op, flags, ctx=None):
             ref = exprs.evaluate(tree, m.env(), m.n)
         except exprs.Undef:
             return None
+        if lhs in ("x", "y", "z") and not coord_valid(m.coords, lhs, ref.vec):
+            return None              # not a value the coordinate class can hold
         s = exprs.render(tree)
         if op[3]:
             s = s.replace("+", " + ").replace("<", " < ")
@@ -277,6 +335,8 @@ def apply(m, tr, op, flags, ctx=None):
             tr.operate(lhs + "=" + s)
             if lhs in ("x", "y", "z"):
                 setattr(m, lhs, list(ref.vec))
+                flags.add("coord-assign")
+                flags.add("coord-assign-" + m.coords)
             else:
                 m.feat[lhs] = list(ref.vec)
             exact = ref.exact
@@ -295,6 +355,8 @@ def apply(m, tr, op, flags, ctx=None):
             ref = exprs.evaluate(tree, env, m.n)
         except exprs.Undef:
             return None
+        if lhs in ("x", "y", "z") and not coord_valid(m.coords, lhs, ref.vec):
+            return None
         s = exprs.render(tree)
         if spaced:
             s = s.replace("+", " + ").replace("<", " < ")
@@ -303,6 +365,8 @@ def apply(m, tr, op, flags, ctx=None):
         if lhs is not None:
             if lhs in ("x", "y", "z"):
                 setattr(m, lhs, list(ref.vec))
+                flags.add("coord-assign")
+                flags.add("coord-assign-" + m.coords)
             else:
                 m.feat[lhs] = list(ref.vec)
             exact = ref.exact
@@ -320,10 +384,73 @@ def apply(m, tr, op, flags, ctx=None):
     return exact
 
 
+def provenance(tracks, cur, op, flags):
+    """operations that change where the observations of a track come from (none of them is a feature operation; what
+    each does is read off the unchanged tree: Obs.copy / Track.copy are deep copies, extractSpanTime returns copies of
+    the observations in the span with its own name->column table, so a derived track shares nothing with its source).
+    Returns None when not issued, else the index of the track the history continues on."""
+    m, tr = tracks[cur]
+    kind = op[0]
+    if kind == "loop":               # Track.loop(add=True) appends a copy of the first observation
+        if m.n >= MAXN:
+            return None
+        tr.loop(add=True)
+        m.insert(m.n, m.record(0))
+        m.copies = True
+        flags.add("prov-loop")
+        return cur
+    if kind == "dup":                # ["dup", i, j, other?, how]: obs.copy() of observation i added / inserted at j
+        if m.n >= MAXN:
+            return None
+        sm, str_ = m, tr
+        if op[3] and (1 - cur) in tracks:
+            # an observation of the other track fits when both tracks list the same <= 1 feature names (then the column
+            # layout is the same whatever order the columns were created in); otherwise it is taken from this track
+            om = tracks[1 - cur][0]
+            if len(m.feat) <= 1 and sorted(om.feat) == sorted(m.feat):
+                sm, str_ = tracks[1 - cur]
+        i = op[1] % sm.n
+        rec = sm.record(i)
+        obs = (str_[i] if op[4] % 2 else str_.getObs(i)).copy()
+        if op[4] < 2:
+            j = m.n
+            tr.addObs(obs)
+        else:
+            j = op[2] % (m.n + 1)
+            tr.insertObs(obs, j)
+        m.insert(j, rec)
+        m.copies = True
+        flags.add("prov-dup-other-track" if sm is not m else "prov-dup-same-track")
+        return cur
+    if kind == "derive":             # ["derive", how, i, j, switch?]: the other slot receives a track derived from this one
+        how = op[1]
+        if how == "span":
+            ta, tb = m.t[op[2] % m.n], m.t[op[3] % m.n]
+            new = tr.extractSpanTime(gen.obstime_of_ms(ta), gen.obstime_of_ms(tb))      # bounds in either order
+            idx = [i for i in range(m.n) if min(ta, tb) <= m.t[i] <= max(ta, tb)]
+            nm = m.subset(idx)
+            flags.add("prov-span-part" if len(idx) < m.n else "prov-span-whole")
+        elif how == "copy":
+            new = tr.copy()
+            nm = m.subset(list(range(m.n)), copies=m.copies)
+            flags.add("prov-track-copy")
+        else:
+            raise ValueError(op)
+        tracks[1 - cur] = (nm, new)
+        flags.add("prov-derived")
+        flags.add("two-tracks")
+        return (1 - cur) if op[4] else cur
+    raise ValueError(op)
+
+
+MUTATING = ("create", "update", "remove", "set", "del", "seti", "addaf", "op_uv", "op_bv", "op_sv", "op_su", "op_sh", "expr", "exprx")
+
+
 @self_contained
 def body_history(case):
     n = case["n"]
-    tracks = {0: build(n)}
+    coords = case.get("coords", "ENU")
+    tracks = {0: build(n, coords)}
     cur = 0
     ctx = {"pool": case.get("pool") or [], "seen": {}, "track": 0}
     flags = set()
@@ -331,21 +458,39 @@ def body_history(case):
     recreated = False
     issued = 0
     for k, op in enumerate(case["ops"]):
+        step = "step %d %s" % (k, op)
         if op[0] == "track":           # switch to the other track (fresh when first used)
             cur = int(op[1]) % 2
             if cur not in tracks:
-                tracks[cur] = build(n)
+                tracks[cur] = build(n, coords)
             ctx["track"] = cur
             if len(tracks) > 1:
                 flags.add("two-tracks")
             continue
+        if op[0] in ("loop", "dup", "derive"):
+            nxt = provenance(tracks, cur, op, flags)
+            if nxt is None:
+                continue
+            if op[0] == "derive":
+                deleted[1 - cur] = set(deleted[cur])
+            cur = ctx["track"] = nxt
+            for j in sorted(tracks):       # the source and the derived track read what was last written on each
+                invariant(tracks[j][0], tracks[j][1], step + (" [track %d]" % j), True)
+            continue
         m, tr = tracks[cur]
         before = set(m.feat)
+        size = m.n
         exact = apply(m, tr, op, flags, ctx)
         if exact is None:
             continue
         issued += 1
-        step = "step %d %s" % (k, op)
+        if op[0] in MUTATING:
+            if m.copies:
+                flags.add("mutation-on-copied-observations")
+            if "prov-derived" in flags:
+                flags.add("mutation-with-derived-track-alive")
+        if size != n:
+            flags.add("size-changed-by-provenance")
         invariant(m, tr, step, exact)
         for j in sorted(tracks):
             if j != cur:
@@ -355,7 +500,7 @@ def body_history(case):
         if (set(m.feat) - before) & deleted[cur]:
             recreated = True
     nt = ("delete-not-last" in flags) or recreated or ("expr-after-delete" in flags)
-    cls = sorted(flags) + (["recreate"] if recreated else []) + ["len-%d" % min(10 * (issued // 10), 30)]
+    cls = sorted(flags) + (["recreate"] if recreated else []) + ["len-%d" % min(10 * (issued // 10), 30), "coords-" + coords]
     return {"nt": nt, "cls": cls}
 
 
@@ -365,11 +510,11 @@ def strat_history(max_ops=30):
     srcs = st.sampled_from(FEATS + ["x", "y", "z", "idx"])
 
     def vals(n):
-        v = st.one_of(*[st.sampled_from(exprs.VALUES)] * 9, st.just(float("nan")))
+        v = exprs.weighted((9, st.sampled_from(exprs.VALUES)), (1, st.just(float("nan"))))
         return st.one_of(st.sampled_from(exprs.VALUES), st.lists(v, min_size=n, max_size=n))
 
     # output of a void operator: a drawn name (may be the input itself) or omitted (= first input)
-    dsts = st.one_of(names, names, names, st.none())
+    dsts = exprs.weighted((3, names), (1, st.none()))
     ext = exprs.ext_values(exprs.EXTERNALS)
 
     def ops(n):
@@ -400,6 +545,13 @@ def strat_history(max_ops=30):
             st.tuples(st.just("exprx"), st.integers(0, 1), ext),
             st.tuples(st.just("track"), st.integers(0, 1)),
             st.tuples(st.just("track"), st.integers(0, 1)),
+            # provenance of the observations: copies of observations, tracks derived from the current one
+            st.just(("loop",)),
+            st.tuples(st.just("dup"), st.integers(0, MAXN - 1), st.integers(0, MAXN), st.booleans(), st.integers(0, 3)),
+            st.tuples(st.just("dup"), st.integers(0, MAXN - 1), st.integers(0, MAXN), st.just(True), st.integers(0, 3)),
+            st.tuples(st.just("derive"), st.just("span"), st.integers(0, MAXN - 1), st.integers(0, MAXN - 1), st.booleans()),
+            st.tuples(st.just("derive"), st.just("span"), st.integers(0, MAXN - 1), st.integers(0, MAXN - 1), st.booleans()),
+            st.tuples(st.just("derive"), st.just("copy"), st.just(0), st.just(0), st.booleans()),
         ).map(list)
 
     # templates with externals: [lhs | None, tree, blanks?]; the same template is evaluated again and again in a history
@@ -414,8 +566,9 @@ def strat_history(max_ops=30):
     template = st.tuples(st.sampled_from(FEATS + FEATS + ["x", "y", "z", None]), xtree, st.booleans()).map(list)
     pool = st.lists(template, min_size=1, max_size=2)
 
-    return st.tuples(st.integers(1, 5), st.integers(1, max_ops), pool).flatmap(
-        lambda nk: st.lists(ops(nk[0]), min_size=nk[1], max_size=nk[1]).map(lambda o: {"n": nk[0], "ops": o, "pool": nk[2]}))
+    return st.tuples(st.integers(1, 5), st.integers(1, max_ops), pool, st.sampled_from(COORDS)).flatmap(
+        lambda nk: st.lists(ops(nk[0]), min_size=nk[1], max_size=nk[1]).map(
+            lambda o: {"n": nk[0], "ops": o, "pool": nk[2], "coords": nk[3]}))
 
 
 # --- exhaustive: every sequence of <= 4 of 12 concrete operations on a 2-fix track -----------------
@@ -429,6 +582,9 @@ CONCRETE = [
     ["expr", None, ["b", "+", ["n", "a"], ["n", "b"]], False],
     ["exprx", 0, {"k": 2}], ["exprx", 0, {"k": 0.5}],          # the same text "b=a*k" with two values of the external
     ["op_su", "SHIFT_RIGHT", "a", None],                       # shift written over its input (omitted output)
+    ["expr", "x", ["b", "+", ["n", "x"], ["n", "a"]], False],  # a coordinate assignment (x=x+a, or x=x+idx without a)
+    ["loop"],                                                  # the track gets a copy of its first observation
+    ["derive", "span", 0, 1, True],                            # continue on extractSpanTime(t0, t1), the source stays alive
 ]
 CONCRETE_POOL = [["b", ["b", "*", ["n", "a"], ["e", "k"]], False]]
 
@@ -437,15 +593,20 @@ def enum_histories(tier):
     depth = 4 if tier == "thorough" else 3
     for d in range(1, depth + 1):
         for seq in itertools.product(range(len(CONCRETE)), repeat=d):
-            yield {"n": 2, "ops": [CONCRETE[i] for i in seq], "pool": CONCRETE_POOL}
+            # the coordinate class goes round with the sequence (every sequence is run, on one of the three classes)
+            yield {"n": 2, "ops": [CONCRETE[i] for i in seq], "pool": CONCRETE_POOL, "coords": COORDS[sum(seq) % 3]}
 
 
-RULE = ("bfs: every sequence of length <= 3 (quick) / <= 4 (thorough) over 15 concrete create/delete/overwrite/expression operations "
-        "(two of them the same external-variable expression with different values, one a shift written over its input) on a "
-        "2-fix track; random: Hypothesis lists of <= 30 (quick) / <= 50 (thorough) operations (create, update, remove, bracket set/delete/item, "
+RULE = ("bfs: every sequence of length <= 3 (quick) / <= 4 (thorough) over 18 concrete create/delete/overwrite/expression operations "
+        "(two of them the same external-variable expression with different values, one a shift written over its input, one a coordinate "
+        "assignment, loop(add=True), and continuing on extractSpanTime of the whole track) on a 2-fix track, the coordinate class going "
+        "round the three classes with the sequence; random: Hypothesis lists of <= 30 (quick) / <= 50 (thorough) operations (create, update, remove, bracket set/delete/item, "
         "addAnalyticalFeature, unary/binary/scalar/non-void and shift operator objects with virtual sources and the output a drawn name, the "
         "source itself or omitted, expressions with and without '=', expressions from a per-case pool of <= 2 templates with external scalar "
-        "variables evaluated with a freshly drawn dictionary each time, switches between two tracks) on tracks of 1..5 fixes, invariant "
+        "variables evaluated with a freshly drawn dictionary each time, switches between two tracks, and provenance operations: "
+        "loop(add=True), added / inserted Obs.copy() of an observation of the same or the other track, continuing on (or keeping aside) an "
+        "extractSpanTime / Track.copy() of the current track) on tracks of 1..5 fixes whose positions are ENUCoords, GeoCoords or ECEFCoords "
+        "(case field), invariant (incl. size, and x y z through track, position and feature readings) "
         "checked on every track after every step. Non-trivial: the history deletes a feature that is not the "
         "last created, or deletes and recreates a name, or evaluates an expression after a delete. Distinct = hash of the case.")
 
